@@ -53,7 +53,8 @@ def gen_base(rng, n, subst=None, site=None, rooting=None, reversible=False):
     tree = G.shuffle_children(rng, G.random_topology(rng, names))
     nsites = rng.randint(4, 8) if dt != "codon" else rng.randint(2, 3)
     if dt == "nucleotide":
-        seqs = G.random_alignment(rng, names, nsites, G.NUC18, "ACGT", lower=True, special=rng.random() < 0.6)
+        sp = rng.random() < 0.6
+        seqs = G.random_alignment(rng, names, nsites, G.NUC18, "ACGT", lower=True, special=sp, twins=(G.PARTIAL_AMB + "N-?") if sp else None)
     elif dt == "aa":
         seqs = G.random_alignment(rng, names, nsites, G.AA_ALL, G.AA20, p_amb=0.3, lower=True)
     else:
@@ -350,6 +351,31 @@ def variants(run: Runner, rng, tree, names, seqs, base, bucket, exhaustive):
             run.pair("reroot", ref, G.materialise(t3, taxa0, seq0, seqs, base), bucket, (kid, "root", i), lean_b=rng.random() < 0.3)
 
 
+def column_relations(run: Runner, rng, case, bucket):
+    """relations that only rewrite the COLUMNS of a case (any data type, here GeneralDataType alphabets whose
+    alignments contain columns differing only in which ambiguity code one tip carries): column permutation, the
+    alignment written twice, and the sum of the single-column likelihoods"""
+    size = G.dt_of(case)["size"]
+    seqs = case["seqs"]
+    L = min(len(x) for x in seqs.values()) // size
+    key = (case["newick"], json.dumps(case.get("general"), sort_keys=True), "".join(seqs[nm] for nm in case["taxa"]))
+
+    def with_cols(js):
+        c = dict(case)
+        c["seqs"] = {nm: "".join(sq[j * size:(j + 1) * size] for j in js) for nm, sq in seqs.items()}
+        return c
+
+    perm = list(range(L))
+    rng.shuffle(perm)
+    run.pair("perm-columns/general", case, with_cols(perm), bucket, key + (tuple(perm),))
+    run.pair("merge-columns(x2)/general", case, with_cols(list(range(L)) * 2), bucket, key, factor=2.0)
+    run.sum_pair("sum-of-single-columns/general", case, [with_cols([j]) for j in range(L)], bucket, key)
+    taxa2 = rng.sample(case["taxa"], len(case["taxa"]))
+    c2 = dict(case, taxa=taxa2, seq_order=rng.sample(case["seq_order"], len(case["seq_order"])))
+    if case["rooting"] == "unrooted" or (case.get("clock") or {}).get("kind") == "strict":
+        run.pair("perm-taxa/general", case, c2, bucket, key + (tuple(taxa2),))
+
+
 def variants_guarded(run_, rng, tree, names, seqs, base, bucket, exhaustive):
     try:
         variants(run_, rng, tree, names, seqs, base, bucket, exhaustive)
@@ -420,6 +446,15 @@ def run(ck: Check):
         for subst in (["LG", "WAG", "MG94"] * 3 if thorough else ["LG", "WAG", "MG94"]):
             tree, names, seqs, base = gen_base(rng, 3 if subst == "MG94" else 4, subst=subst)
             variants_guarded(run_, rng, tree, names, seqs, base, "alphabets", exhaustive=False)
+        # GeneralDataType alphabets (user-supplied codes + ambiguity map): column relations
+        for _ in range(40 if thorough else 8):
+            try:
+                case = G.gen_case(rng, rng.choice([3, 4, 5]), general=True, rooting="unrooted", nsites=rng.randint(3, 6))
+                column_relations(run_, rng, case, "general-datatype")
+            except InfraError:
+                raise
+            except Exception as e:  # noqa: BLE001
+                ck.mismatch("general-datatype relations could not be evaluated", {"error": repr(e)[:300]})
         # random beyond
         for _ in range(200 if thorough else 30):
             n = rng.choice([5, 6, 7, 8, 10, 14]) if thorough else rng.choice([5, 6, 7, 8])
